@@ -19,10 +19,11 @@ multiplicity of the direct assignment — plus random deep models), for **every*
 
 Not proved here (executed by the oracle on the real code on every run instead): "parsing the produced DSL
 gives back the input up to the four normalisations" — it needs the text→tree step of the real parser.
-Open findings of this property (degenerate inputs): an operator with zero operands and a direct assignment
-without any type restriction are printed as text that is not DSL (KF-C02-empty-operator, -empty-restrictions);
-`print_ok_iff_expressible` holds for them too (the port prints what the code prints) — the findings are about
-the *text*, see the witnesses below.
+Degenerate inputs: an operator with zero operands used to be printed as an empty operand list, which is not
+DSL (defect D13, repaired in /repo: it is the unsupported-nesting error now, like an unset userset; `noNil`
+rejects both).  Open finding: a direct assignment without any type restriction is printed as `[]`, which is
+not DSL either (KF-C02-empty-restrictions); `print_ok_iff_expressible` holds for it too (the port prints what
+the code prints) — the finding is about the *text*, see the witness below.
 -/
 namespace FgaVerif.Props.C02
 open FgaVerif.Model FgaVerif.Model.Printer
@@ -110,8 +111,8 @@ theorem isFirstPosition_of_firstPath (u : Userset) (h : FirstPath u) : isFirstPo
     · rfl
     · exact ih
 
-/-- a relation is DSL-expressible: nothing unset, and no direct assignment or exactly one that can be
-    placed first -/
+/-- a relation is DSL-expressible: nothing unset and no operator without operands (`noNil`), and no
+    direct assignment or exactly one that can be placed first -/
 def Expressible (u : Userset) : Prop :=
   noNil u = true ∧ (countThis u = 0 ∨ (countThis u = 1 ∧ FirstPath u))
 
@@ -151,8 +152,9 @@ example : Expressible (.union [.computed "a", .this, .diff (.ttu "p" "x") (.comp
 example : (parseRelation "doc" "v" (.union [.computed "a", .this]) { restr := [{ type := "user" }] } false) =
     .ok "    define v: [user] or a" := by decide
 example : (parseRelation "doc" "v" (.diff (.computed "a") .this) {} false) = .error (.nesting "doc" "v") := by decide
-/-- open finding KF-C02-empty-operator: an operator without operands prints an empty operand list -/
-example : (parseRelation "doc" "r" (.union []) {} false) = .ok "    define r: " := by decide
+/-- repaired defect D13: an operator without operands is the nesting error, at the root and below it -/
+example : (parseRelation "doc" "r" (.union []) {} false) = .error (.nesting "doc" "r") := by decide
+example : (parseRelation "doc" "r" (.union [.computed "a", .inter []]) {} false) = .error (.nesting "doc" "r") := by decide
 /-- open finding KF-C02-empty-restrictions: a direct assignment without restrictions prints `[]` -/
 example : (parseRelation "doc" "r" .this {} false) = .ok "    define r: []" := by decide
 
